@@ -196,12 +196,21 @@ def run_case(eps, ename, incs, excs, inline, L, out, armed, explicit=True):
     raised = None
     npats_ = len(pats) + len(excl)
     cap = None if effL == 0 else effL + npats_ + 50
+    huge = T >= 100000000
     with BracexCounter(cap) as bc:
         try:
-            eps[ename](pats, excl, inline, L)
+            with util.watchdog(60 if huge else 300):
+                eps[ename](pats, excl, inline, L)
             raised = False
         except WCP.PatternLimitException:
             raised = True
+        except util.HarnessBudget:
+            if huge and effL > 0:
+                out.violation(dict(case, problem='`{1..100000000}` was not rejected fast (no answer within 60 s for O(limit) work)'),
+                              size=10, bucket=('work-time', ename))
+            else:
+                out.stats['watchdog_skipped'] += 1
+            return
         except WorkExceeded:
             out.violation(dict(case, problem='expansion work not bounded by the limit (harness stopped the expansion)', drawn=bc.drawn),
                           size=T, bucket=('work', ename))
@@ -259,9 +268,14 @@ def grid_cases():
         # far over the limit: must fail fast
         yield L, [rng('h_', 1000 * L)], [], False
         yield L, [rng('h_', 3)], [rng('g_', 1000 * L)], False
-    # huge range: must not be materialised
+    # huge ranges: must fail fast instead of being materialised.  3 000 000 keeps a broken implementation (one that expands
+    # everything first) within seconds and a few hundred MB, so that the harness's item counter - not a stopwatch - decides;
+    # `{1..100000000}` (the statement's own example) is tried under a watchdog: an implementation that needs more than 60 s for
+    # O(L) work is reported, a correct one answers in microseconds
+    yield 5, [Tpl('{1..3000000}', 3000000, 3000000)], [], False
+    yield 1000, [Tpl('a{1..1500000}{x,y}', 3000000, 3000000)], [], False
+    yield 3, [rng('h_', 2)], [Tpl('{1..3000000}', 3000000, 3000000)], False
     yield 5, [Tpl('{1..100000000}', 100000000, 100000000)], [], False
-    yield 1000, [Tpl('{1..100000000}', 100000000, 100000000)], [], False
     # limit=0 disables the check
     yield 0, [rng('z_', 1500)], [], False
     yield 0, [rng('z_', 700)], [rng('y_', 600)], False
